@@ -443,15 +443,23 @@ func (mw *msgWriter) writePart(part *Part, charset Charset) {
 	}
 	contentTransferEnc := part.encoding.String()
 
+	contentDescription := ""
+	if part.description != "" {
+		contentDescription = mw.encoder.Encode(mw.charset.String(), part.description)
+	}
+
 	if mw.depth == 0 {
+		if contentDescription != "" {
+			mw.writeHeader(HeaderContentDescription, contentDescription)
+		}
 		mw.writeHeader(HeaderContentTransferEnc, contentTransferEnc)
 		mw.writeHeader(HeaderContentType, contentType)
 		mw.writeString(SingleNewLine)
 	}
 	if mw.depth > 0 {
 		mimeHeader := textproto.MIMEHeader{}
-		if part.description != "" {
-			mimeHeader.Add(string(HeaderContentDescription), mw.encoder.Encode(mw.charset.String(), part.description))
+		if contentDescription != "" {
+			mimeHeader.Add(string(HeaderContentDescription), contentDescription)
 		}
 		mimeHeader.Add(string(HeaderContentTransferEnc), contentTransferEnc)
 		mimeHeader.Add(string(HeaderContentType), contentType)
